@@ -128,6 +128,22 @@ def velocities(rng, hg, ht, n):
     return out[:n]
 
 
+def general_state(hg, spy):
+    """'ok', 'unconverged' (self.success False: C02 unconverged-matching-returned) or
+    'accepted' (the last hybr solve reports failure but sum(fun^2) < 1e-6 lets it through:
+    C02 slow-wall-unconverged-accepted / unconverged-accepted-absolute-threshold)"""
+    _, sol = spy.last("root", "matching")
+    if sol is None:
+        return "ok"
+    if not hg.success:
+        return "unconverged"
+    return "ok" if sol.success else "accepted"
+
+
+GEN_KEY = {"unconverged": "general-unconverged-matching",
+           "accepted": "general-unconverged-accepted"}
+
+
 def compare(ctx, case, stats, rng, n_vw, with_lte=True, with_kappa=True, vws=None,
             kappa_vws=None):
     """the property on the two running solvers for one parameter set"""
@@ -174,6 +190,7 @@ def compare(ctx, case, stats, rng, n_vw, with_lte=True, with_kappa=True, vws=Non
         try:
             with base.Spy(hg) as spy:
                 bg = hg.findHydroBoundaries(vw)
+            gstate = "ok" if vw > hg.vJ else general_state(hg, spy)
             mg = spy.matchings[-1] if spy.matchings else None
             mt = ht.findMatching(vw)
             bt = ht.findHydroBoundaries(vw)
@@ -228,13 +245,13 @@ def compare(ctx, case, stats, rng, n_vw, with_lte=True, with_kappa=True, vws=Non
             k = max(range(4), key=lambda i: rel(mg[i], mt[i]))
             # hybrids within 2% of the Jouguet velocity are reported as their own class
             nearJ = branch == "hybrid" and vw > 0.98 * min(hg.vJ, ht.vJ)
-            gsucc = bool(hg.success)
             fail("matching at vw=%.6g (%s, vJ=%.6g): %s general %.12g, template %.12g (rel "
-                 "%.3g > %.3g)" % (vw, branch, ht.vJ, names[k], mg[k], mt[k], worst, tol),
-                 "general-unconverged-matching" if not gsucc else (
-                     "matching-near-jouguet-hybrid" if nearJ else "matching"),
-                 vw=vw, general=mg, template=mt, quantity="matching",
-                 general_success=gsucc)
+                 "%.3g > %.3g)%s" % (vw, branch, ht.vJ, names[k], mg[k], mt[k], worst, tol,
+                                     "" if gstate == "ok" else " [general 2x2 solve: %s]"
+                                     % gstate),
+                 GEN_KEY.get(gstate, "matching-near-jouguet-hybrid" if nearJ else
+                             "matching"),
+                 vw=vw, general=mg, template=mt, quantity="matching", general_state=gstate)
             continue
         bgf = [float(x) for x in bg]
         btf = [float(x) for x in bt]
@@ -245,7 +262,8 @@ def compare(ctx, case, stats, rng, n_vw, with_lte=True, with_kappa=True, vws=Non
         ctx.count("boundaries")
         if not worstb <= tolb:
             fail("findHydroBoundaries at vw=%.6g (%s): general %r, template %r" % (
-                vw, branch, bgf, btf), "boundaries", vw=vw, quantity="boundaries")
+                vw, branch, bgf, btf), GEN_KEY.get(gstate, "boundaries"), vw=vw, quantity="boundaries",
+                 general_state=gstate)
     # LTE wall velocity
     if with_lte:
         try:
@@ -290,8 +308,10 @@ def compare(ctx, case, stats, rng, n_vw, with_lte=True, with_kappa=True, vws=Non
             vws = list(kappa_vws)
         for vw in vws:
             try:
-                kg = float(hg.efficiencyFactor(vw))
-                gsucc = bool(hg.success) or vw > hg.vJ
+                with base.Spy(hg) as kspy:
+                    kg = float(hg.efficiencyFactor(vw))
+                kstate = "ok" if vw > hg.vJ else general_state(hg, kspy)
+                gsucc = kstate == "ok"
                 kt = float(ht.efficiencyFactor(vw))
             except Exception as ex:
                 ctx.count("raised", bucket="kappa:" + type(ex).__name__)
@@ -312,16 +332,19 @@ def compare(ctx, case, stats, rng, n_vw, with_lte=True, with_kappa=True, vws=Non
                 # consequence of the recorded general-unconverged-matching class
                 fail("efficiency factor at vw=%.6g: general %.9g%s, template %.9g" % (
                     vw, kg, "" if gsucc else " (from an UNCONVERGED matching)", kt),
-                    SMALL if small_alpha else (
-                        "kappa" if gsucc else "kappa-general-unconverged-matching"),
-                    vw=vw, quantity="kappa", general_success=gsucc)
+                    SMALL if small_alpha else {
+                        "ok": "kappa", "unconverged": "kappa-general-unconverged-matching",
+                        "accepted": "general-unconverged-accepted"}[kstate],
+                    vw=vw, quantity="kappa", general_state=kstate)
                 continue
             # the same comparison with both classes at tight tolerances
             try:
                 if tight is None:
                     tight = build(case, TIGHT, TIGHT)
-                kg = float(tight[1].efficiencyFactor(vw))
-                gsucc = bool(tight[1].success) or vw > hg.vJ
+                with base.Spy(tight[1]) as kspy:
+                    kg = float(tight[1].efficiencyFactor(vw))
+                kstate = "ok" if vw > hg.vJ else general_state(tight[1], kspy)
+                gsucc = kstate == "ok"
                 kt = float(tight[2].efficiencyFactor(vw))
             except Exception as ex:
                 ctx.count("raised", bucket="kappa-tight:" + type(ex).__name__)
@@ -337,9 +360,11 @@ def compare(ctx, case, stats, rng, n_vw, with_lte=True, with_kappa=True, vws=Non
                      "template %.9g (rel %.3g > %.3g)" % (
                          vw, kg, "" if gsucc else " (from an UNCONVERGED matching)", kt,
                          rel(kg, kt), TOL_KAPPA_TIGHT),
-                     SMALL if small_alpha else (
-                         "kappa-tight" if gsucc else "kappa-general-unconverged-matching"),
-                     vw=vw, quantity="kappa", rtol=TIGHT, atol=TIGHT, general_success=gsucc)
+                     SMALL if small_alpha else {
+                         "ok": "kappa-tight",
+                         "unconverged": "kappa-general-unconverged-matching",
+                         "accepted": "general-unconverged-accepted"}[kstate],
+                     vw=vw, quantity="kappa", rtol=TIGHT, atol=TIGHT, general_state=kstate)
 
 
 # ------------------------------------------------------------------------------------
@@ -439,7 +464,7 @@ def eval_rows(case, th, ht, rng):
         res = ht.findMatching(vw)
     finally:
         TM.root_scalar = orig
-    if res[0] is not None and "root" in got:
+    if res[0] is not None and "root" in got and all(math.isfinite(float(x)) for x in res):
         res = [float(x) for x in res]
         t = "(t_findMatching_result %s %s %s)" % (T, q(vw), q(got["root"]))
         for i in range(4):
@@ -453,6 +478,12 @@ def eval_rows(case, th, ht, rng):
         t = "(t_matchDeflagOrHybInitial_given %s %s %s)" % (T, q(vw), q(res[0]))
         rows += [(tup(2, 0, t), y[0], y[0]), (tup(2, 1, t), y[1], y[1])]
     return rows
+
+
+def finite_rows(rows):
+    """certified evaluation only where the running code returns finite numbers (python's
+    x**y is nan for x < 0, Coq's Rpower is not: outside the common domain)"""
+    return [r for r in rows if math.isfinite(r[1]) and math.isfinite(r[2])]
 
 
 def eval_file(case, th, ht, rows):
@@ -496,7 +527,7 @@ def run(ctx):
             case = gen_params(rng)
             try:
                 th, hg, ht = build(case)
-                allrows = eval_rows(case, th, ht, rng)
+                allrows = finite_rows(eval_rows(case, th, ht, rng))
                 for c in range(0, len(allrows), 8):
                     rows = allrows[c:c + 8]
                     p = ctx.write("Cases/Eval_%d_%d.v" % (m, c // 8),
